@@ -12,7 +12,7 @@
 
   * `runPure`        : reference semantics, arguments given as a function
   * `asked`          : the argument positions requested on a given input
-  * `Bounded n m`    : only arguments `< n` and variables `< m` are ever requested
+  * `Bounded n`      : only arguments `< n` are ever requested
   * `Tree`, `Tree.eval` : expression trees and their recursive evaluation
 -/
 namespace Vita
@@ -50,13 +50,13 @@ def asked (argv : Nat → Option V) (par : P) (vars : Nat → V) : Prog P V → 
   | .param k => (k par).asked argv par vars
   | .var i k => (k (vars i)).asked argv par vars
 
-/-- The body never asks for an argument `≥ n` nor a variable `≥ m`, whatever it is given. -/
-def Bounded (n m : Nat) : Prog P V → Prop
+/-- The body never asks for an argument `≥ n`, whatever it is given. -/
+def Bounded (n : Nat) : Prog P V → Prop
   | .ret _ => True
   | .throw => True
-  | .fetch i k => i < n ∧ ∀ v, (k v).Bounded n m
-  | .param k => ∀ p, (k p).Bounded n m
-  | .var i k => i < m ∧ ∀ v, (k v).Bounded n m
+  | .fetch i k => i < n ∧ ∀ v, (k v).Bounded n
+  | .param k => ∀ p, (k p).Bounded n
+  | .var _ k => ∀ v, (k v).Bounded n
 
 /-- The result depends only on the arguments that are asked for. -/
 theorem runPure_congr_asked (argv argv' : Nat → Option V) (par : P) (vars : Nat → V) :
@@ -81,31 +81,25 @@ theorem runPure_congr_asked (argv argv' : Nat → Option V) (par : P) (vars : Na
   | var i k ih => intro h; exact ih (vars i) h
 
 /-- … in particular only on the arguments below the bound. -/
-theorem runPure_congr_bounded (n m : Nat) (argv argv' : Nat → Option V) (par : P)
-    (vars vars' : Nat → V) :
-    ∀ p : Prog P V, p.Bounded n m → (∀ i, i < n → argv i = argv' i) →
-      (∀ i, i < m → vars i = vars' i) →
-      p.runPure argv par vars = p.runPure argv' par vars' := by
+theorem runPure_congr_bounded (n : Nat) (argv argv' : Nat → Option V) (par : P) (vars : Nat → V) :
+    ∀ p : Prog P V, p.Bounded n → (∀ i, i < n → argv i = argv' i) →
+      p.runPure argv par vars = p.runPure argv' par vars := by
   intro p
   induction p with
   | ret v => intros; rfl
   | throw => intros; rfl
   | fetch i k ih =>
-    intro hb ha hv
+    intro hb ha
     simp only [runPure]
     rw [← ha i hb.1]
     cases argv i with
     | none => rfl
-    | some v => exact ih v (hb.2 v) ha hv
-  | param k ih => intro hb ha hv; exact ih par (hb par) ha hv
-  | var i k ih =>
-    intro hb ha hv
-    simp only [runPure]
-    rw [← hv i hb.1]
-    exact ih (vars i) (hb.2 _) ha hv
+    | some v => exact ih v (hb.2 v) ha
+  | param k ih => intro hb ha; exact ih par (hb par) ha
+  | var i k ih => intro hb ha; exact ih (vars i) (hb _) ha
 
-theorem asked_lt_of_bounded (n m : Nat) (argv : Nat → Option V) (par : P) (vars : Nat → V) :
-    ∀ p : Prog P V, p.Bounded n m → ∀ i ∈ p.asked argv par vars, i < n := by
+theorem asked_lt_of_bounded (n : Nat) (argv : Nat → Option V) (par : P) (vars : Nat → V) :
+    ∀ p : Prog P V, p.Bounded n → ∀ i ∈ p.asked argv par vars, i < n := by
   intro p
   induction p with
   | ret v => intro _ i hi; simp [asked] at hi
@@ -121,7 +115,7 @@ theorem asked_lt_of_bounded (n m : Nat) (argv : Nat → Option V) (par : P) (var
       · subst hi; exact hb.1
       · exact ih v (hb.2 v) i hi
   | param k ih => intro hb i hi; exact ih par (hb par) i hi
-  | var j k ih => intro hb i hi; exact ih (vars j) (hb.2 _) i hi
+  | var j k ih => intro hb i hi; exact ih (vars j) (hb _) i hi
 
 end Prog
 
